@@ -176,6 +176,7 @@ fn item(ctx: &Ctx, i: usize, rep: &mut Report) {
         }
         let mut offset = 0usize; // adds before the last clear()
         for (idx, x) in stream.iter().enumerate() {
+            beat();
             if clear_at == Some(idx) {
                 lc.clear();
                 truth.clear();
